@@ -3,11 +3,16 @@
 Function level: every designed spectral sequence of a stated family (every assignment of a 5-symbol
 ratio alphabet to a 5-line window with a unique maximum, at every window position, payload unitary
 bases, Hermitian and half-spectrum) x every selected frequency (grid lines and mid-points) x three band
-half-widths, through the real `fdd.SD_svalsvec` -> `fdd.FDD_mpe`; oracle from my own SVD of the matrix.
+half-widths, through the real `fdd.SD_svalsvec` -> `fdd.FDD_mpe`; oracle from my own SVD of the matrix. The frequency
+axis handed to `FDD_mpe` is an axis of the lattice as well: zero-based, and (one for every second sequence, rotating with
+the band width) starting above 0 Hz - the sequence cropped at the lower end, at both ends, at the upper end, first line a multiple of the
+line spacing or not; the reference is the definition on the axis handed in.
 End to end: FDD / FDD_MS / EFDD / FSDD / EFDD_MS through the setup classes on payload records, oracle
 recomputed from `result.Sy`; every band is requested through both documented entry points of the extraction,
 `mpe(sel_freq, DF..)` and the interactive `mpe_from_plot(freqlim, DF..)` (the Tk dialog replaced by a stand-in that
-hands over the picked grid lines; the dialog itself is property C16), in three call forms, and with DF omitted.
+hands over the picked grid lines; the dialog itself is property C16), in three call forms, and with DF omitted; the
+stored result of every FDD / FDD_MS run is also cropped to four bands of interest and handed, with its own frequency
+axis, to the documented function `fdd.FDD_mpe`.
 """
 import itertools
 
@@ -19,7 +24,8 @@ from mc.core import Tally
 
 ID = "C06"
 TECHNIQUE = ("bounded-exhaustive enumeration of designed spectral-matrix sequences (all ratio profiles over a small "
-             "alphabet x all window positions x all selected lines/mid-points x band widths) through the real "
+             "alphabet x all window positions x all selected lines/mid-points x band widths x frequency axes {zero-based, "
+             "cropped at the lower end / both ends / upper end, first line on or off the multiples of the spacing}) through the real "
              "SD_svalsvec/FDD_mpe, judged against an independent SVD; plus the full (record x algorithm x segment "
              "length x selection x band x entry point {mpe, mpe_from_plot} x call form) lattice through the setup classes")
 LEVEL_TEXT = ("every element of the stated finite lattice is executed on the real code and judged; real-valued content "
@@ -35,6 +41,13 @@ ASSUMPTIONS = [
     "or outermost line inside, upper limit inclusive or exclusive; the returned line must be the ratio maximum of one of them",
     "ratio ties (within 1e-8 relative) accept any of the tied lines; shapes are judged where sigma1/sigma2 >= 1.1",
     "designed sequences keep sigma1/sigma_n <= 1e6 so that the reference SVD resolves every ratio to 1e-9",
+    "frequency axis: FDD_mpe is judged on the axis it is handed (uniform, increasing, any first line): 'a line of the grid', "
+    "'inside the band' and 'largest ratio in the band' are all read on that axis and on the lines handed in, whether or not the "
+    "sequence is a crop of a longer zero-based one. Function level: every designed sequence is extracted on the zero-based axis "
+    "with all band widths, and every second one (k = profile index + window offset + channels + family index even) on ONE "
+    "further axis with one band width, (axis, DF) = rotation over k/2, so that every (axis, DF) pair occurs in every "
+    "(channels, family, Nf, offset) block of the Nf=17 plan. "
+    "Non-uniform axes are not explored",
     "mpe_from_plot route: the name SelFromPlot of pyoma2.algorithms.fdd is replaced by a stand-in that returns what the "
     "real dialog can return for the 'FDD' plot (an ascending list of grid lines as numpy floats, None); which lines a click "
     "history yields is property C16, not judged here. The band judged is the DF (DF1) handed to mpe_from_plot, or the "
@@ -50,6 +63,40 @@ TOL_U = 1e-10
 TOL_MAC = 1e-10
 TOL_NORM = 1e-12
 TOL_R = 1e-8
+
+# Frequency axes handed to FDD_mpe besides the zero-based one: (kind, first line in line spacings, lines cut below, lines cut
+# above). The designed sequence of Nf lines sits on the axis (first + arange(Nf)) * DFREQ - for an integer `first` these are
+# bit for bit the lines first..first+Nf-1 of the zero-based grid arange(M) * DFREQ, i.e. a spectral sequence cropped at the
+# lower end - and the slice [cut below : Nf - cut above] of the stored decomposition and of the axis is handed in.
+AXES = (
+    ("cropped at the lower end", 1.0, 0, 0),
+    ("cropped at the lower end", 3.0, 0, 0),
+    ("cropped at the lower end", 54.0, 0, 0),            # first line 19.98 Hz
+    ("first line off the multiples of the spacing", 0.5, 0, 0),
+    ("first line off the multiples of the spacing", 2.3, 0, 0),
+    ("first line off the multiples of the spacing", 13.77, 0, 0),
+    ("cropped at both ends", 0.0, 2, 1),
+    ("cropped at both ends", 6.0, 1, 2),
+    ("cropped at both ends", 20.3, 2, 2),
+    ("cropped at the upper end", 0.0, 0, 3),             # still zero-based
+)
+AXIS_KINDS = tuple(dict.fromkeys(a[0] for a in AXES))
+
+
+def axis_label(vi):
+    kind, first, cl, ch = AXES[vi]
+    return f"{kind} (first line {first:g} spacings, {cl} lines cut below, {ch} above)"
+
+
+def axis_rotation(n, fam, off, pi):
+    """(axis variant, DF index) of the one further extraction of a designed sequence, or None: every second sequence
+    (k even, k = profile index + window offset + channels + family index) is extracted on one further axis."""
+    k = pi + off + n + FAMS.index(fam)
+    if k % 2:
+        return None
+    k //= 2
+    return k % len(AXES), (k // len(AXES)) % len(DFS)
+
 
 PROFILES = [p for p in itertools.product(range(len(ALPHA)), repeat=WIN) if p.count(max(p)) == 1]   # 1770
 PERMS = [i for i, p in enumerate(PROFILES) if len(set(p)) == WIN]                                  # 120
@@ -77,9 +124,17 @@ def base(seed, n, fam, Nf):
     return _BASE[k]
 
 
-def bands(Nf):
-    if Nf not in _BANDS:
-        freq = np.arange(Nf) * DFREQ
+def bands(Nf, vi=None):
+    """Grid, selected frequencies (every line and mid-point) and admissible bands of the zero-based axis of Nf lines
+    (vi None) or of axis variant vi of a sequence of Nf lines (then also the slice of the sequence that is handed in)."""
+    if (Nf, vi) not in _BANDS:
+        if vi is None:
+            freq = np.arange(Nf) * DFREQ
+            sl = slice(0, Nf)
+        else:
+            _, first, cl, ch = AXES[vi]
+            sl = slice(cl, Nf - ch)
+            freq = ((first + np.arange(Nf)) * DFREQ)[sl].copy()
         sels = np.concatenate([freq, freq[:-1] + DFREQ / 2])
         tab = [[H.band_candidates(freq, s, d * DFREQ) for s in sels] for d in DFS]
         K = max(len(c) for row in tab for c in row)
@@ -87,17 +142,18 @@ def bands(Nf):
         info = {
             "lo": pad[..., 0], "hi": pad[..., 1], "wlo": pad[..., 0].min(axis=2), "whi": pad[..., 1].max(axis=2),
             "ncand": np.array([[len(c) for c in row] for row in tab]),
-            "near": np.rint(sels / DFREQ - 1e-6).astype(int),
+            "near": np.rint((sels - freq[0]) / DFREQ - 1e-6).astype(int),
+            "slice": sl,
         }
-        _BANDS[Nf] = (freq, sels, tab, info)
-    return _BANDS[Nf]
+        _BANDS[(Nf, vi)] = (freq, sels, tab, info)
+    return _BANDS[(Nf, vi)]
 
 
 def fast_call(freq, info, dfi, r, s1, u1, Fn, Phi):
     """Vectorised form of judge_pick over one extraction call (designed grids). Returns (pass mask, line indices, stats);
     every selection that does not pass is judged again by judge_pick, which writes the finding."""
     Nf = len(freq)
-    idx = np.clip(np.rint(Fn / DFREQ).astype(int), 0, Nf - 1)
+    idx = np.clip(np.rint((Fn - freq[0]) / DFREQ).astype(int), 0, Nf - 1)        # freq[0] is 0.0 on the zero-based axis
     ok = np.abs(freq[idx] - Fn) <= 1e-12 * freq[-1]
     j = np.arange(Nf)
     RM = np.maximum.accumulate(np.where(j[None, :] >= j[:, None], r[None, :], -np.inf), axis=1)     # RM[lo, hi] = max r[lo..hi]
@@ -246,7 +302,7 @@ def judge_pick(t, freq, r, u1, sel, cands, fn, phi, case, where, judge_line=True
 
 
 # ---- function level -----------------------------------------------------------------------------
-def run_sequence(t, seed, n, fam, Nf, off, pi, seq_id, only=None, slow=False):
+def run_sequence(t, seed, n, fam, Nf, off, pi, seq_id, only=None, slow=False, axis_only=None):
     from pyoma2.functions import fdd
 
     prof = PROFILES[pi]
@@ -267,47 +323,79 @@ def run_sequence(t, seed, n, fam, Nf, off, pi, seq_id, only=None, slow=False):
     mode = judge_decomposition(t, Sy, Sval, Svec, case0, where)
     t.outcomes[f"decomposition stored-values convention: {mode}"] += 1
     for dfi, d in enumerate(DFS):
-        if only is not None and dfi != only:
+        if axis_only is not None or (only is not None and dfi != only):
             continue
-        case = dict(case0, dfi=dfi)
-        try:
-            t.evaluations += 1
-            Fn, Phi = fdd.FDD_mpe(Sval, Svec, freq, list(sels), DF=d * DFREQ)
-            Fn = np.asarray(Fn, float).ravel()
-            Phi = np.asarray(Phi)
-            if Fn.shape != (len(sels),) or Phi.shape != (n, len(sels)):
-                raise ValueError(f"Fn{Fn.shape} Phi{Phi.shape}")
-        except Exception as e:
-            t.violation(f"raises:{type(e).__name__}:FDD_mpe", f"{e!r} (DF={d} lines)", case)
-            continue
-        t.transitions += len(sels)
-        if slow:
-            okm = np.zeros(len(sels), bool)
-            st = {"clipped": 0, "not_s1": 0, "tie": 0, "nontrivial": 0}
-        else:
-            okm, _, st = fast_call(freq, info, dfi, r, s[:, 0], u1, Fn, Phi)
-            t.validated += int(okm.sum())
-            t.err("1 - MAC(Phi, conj u1)", st["emac"])
-            t.err("|largest component - 1|", st["enorm"])
-        for si in np.where(~okm)[0]:
-            sel = sels[si]
-            cands = tab[dfi][si]
-            idx = judge_pick(t, freq, r, u1, sel, cands, Fn[si], Phi[:, si], case, where)
-            if idx is None:
-                continue
-            lo, hi = info["wlo"][dfi][si], info["whi"][dfi][si]
-            seg = r[lo:hi + 1]
-            st["nontrivial"] += int(seg.max() > seg.min() * 1.001 and r[info["near"][si]] < seg.max())
-            st["clipped"] += int(lo == 0 or hi == Nf - 1)
-            st["not_s1"] += int(s[idx, 0] < s[lo:hi + 1, 0].max())
-            st["tie"] += int(len(cands) > 2)
-        t.outcomes["band clipped by a grid end"] += st["clipped"]
-        t.outcomes["largest ratio is not the largest sigma1 in the band"] += st["not_s1"]
-        t.outcomes["band limit falls on a mid-point (tie admitted)"] += st["tie"]
-        nt = st["nontrivial"]
+        nt = one_call(t, fdd, n, Sval, Svec, freq, sels, tab, info, dfi, r, s, u1, dict(case0, dfi=dfi), where,
+                      "raises:{}:FDD_mpe", slow)
         if nt:
             t.nontrivial.add(seq_id * len(DFS) + dfi)
             t.extra["nontrivial_selections"] = t.extra.get("nontrivial_selections", 0) + nt
+    if only is not None and axis_only is None:
+        return
+    # the same stored decomposition on a frequency axis that does not start at 0 Hz / is cropped: one further extraction
+    rot = axis_rotation(n, fam, off, pi)
+    if axis_only is not None and (rot is None or rot[0] != axis_only or (only is not None and rot[1] != only)):
+        raise RuntimeError(f"harness: axis rotation {rot} does not reproduce the replayed case {(axis_only, only)}")
+    if rot is None:
+        return
+    vi, dfi = rot
+    afreq, asels, atab, ainfo = bands(Nf, vi)
+    sl = ainfo["slice"]
+    kind = AXES[vi][0]
+    awhere = f"{fam}:axis {kind}"
+    nt = one_call(t, fdd, n, Sval[:, :, sl], Svec[:, :, sl], afreq, asels, atab, ainfo, dfi, r[sl], s[sl], u1[sl],
+                  dict(case0, dfi=dfi, axis=vi), awhere, "raises:{}:FDD_mpe@" + awhere, slow)
+    if nt is None:
+        return
+    t.outcomes[f"function-level frequency axis: {axis_label(vi)}"] += 1
+    t.outcomes[f"function-level frequency axis kind: {kind}, DF={DFS[dfi]} lines"] += 1
+    if nt:
+        t.nontrivial.add(("axis", seq_id))
+        t.extra["nontrivial_selections"] = t.extra.get("nontrivial_selections", 0) + nt
+        if afreq[0] > 0:
+            t.outcomes["function-level non-trivial selections on an axis that does not start at 0 Hz"] += nt
+
+
+def one_call(t, fdd, n, Sval, Svec, freq, sels, tab, info, dfi, r, s, u1, case, where, raise_key, slow):
+    """One extraction call of the real FDD_mpe on the axis `freq` with all selected frequencies `sels` and band half-width
+    DFS[dfi] lines, every selection judged. Returns the number of non-trivial selections, or None if the call failed."""
+    d = DFS[dfi]
+    Nf = len(freq)
+    try:
+        t.evaluations += 1
+        Fn, Phi = fdd.FDD_mpe(Sval, Svec, freq, list(sels), DF=d * DFREQ)
+        Fn = np.asarray(Fn, float).ravel()
+        Phi = np.asarray(Phi)
+        if Fn.shape != (len(sels),) or Phi.shape != (n, len(sels)):
+            raise ValueError(f"Fn{Fn.shape} Phi{Phi.shape}")
+    except Exception as e:
+        t.violation(raise_key.format(type(e).__name__), f"{e!r} (DF={d} lines, axis {freq[0]:.6g}..{freq[-1]:.6g} Hz, {Nf} lines)", case)
+        return None
+    t.transitions += len(sels)
+    if slow:
+        okm = np.zeros(len(sels), bool)
+        st = {"clipped": 0, "not_s1": 0, "tie": 0, "nontrivial": 0}
+    else:
+        okm, _, st = fast_call(freq, info, dfi, r, s[:, 0], u1, Fn, Phi)
+        t.validated += int(okm.sum())
+        t.err("1 - MAC(Phi, conj u1)", st["emac"])
+        t.err("|largest component - 1|", st["enorm"])
+    for si in np.where(~okm)[0]:
+        sel = sels[si]
+        cands = tab[dfi][si]
+        idx = judge_pick(t, freq, r, u1, sel, cands, Fn[si], Phi[:, si], case, where)
+        if idx is None:
+            continue
+        lo, hi = info["wlo"][dfi][si], info["whi"][dfi][si]
+        seg = r[lo:hi + 1]
+        st["nontrivial"] += int(seg.max() > seg.min() * 1.001 and r[info["near"][si]] < seg.max())
+        st["clipped"] += int(lo == 0 or hi == Nf - 1)
+        st["not_s1"] += int(s[idx, 0] < s[lo:hi + 1, 0].max())
+        st["tie"] += int(len(cands) > 2)
+    t.outcomes["band clipped by a grid end"] += st["clipped"]
+    t.outcomes["largest ratio is not the largest sigma1 in the band"] += st["not_s1"]
+    t.outcomes["band limit falls on a mid-point (tie admitted)"] += st["tie"]
+    return st["nontrivial"]
 
 
 def fn_item(item):
@@ -341,6 +429,14 @@ def split2(Y):
 
 
 ROUTES = ("mpe", "mpe_from_plot")          # the two documented entry points of the extraction
+CROP_ROUTE = "FDD_mpe on the cropped result"
+# bands of interest the stored result of an FDD / FDD_MS run is cropped to before it is handed to fdd.FDD_mpe: lines [a, b)
+CROPS = (
+    ("0 Hz line dropped", lambda Nf: (1, Nf)),
+    ("lower end", lambda Nf: (Nf // 8, Nf)),
+    ("both ends", lambda Nf: (Nf // 5, Nf - Nf // 4)),
+    ("upper end", lambda Nf: (0, Nf // 2)),
+)
 FORMS = ("setup method, keywords, freqlim given", "setup method, positional", "algorithm object, keywords")
 DF_DEFAULT = 0.1                            # documented default of DF / DF1 [Hz], used when the argument is omitted
 
@@ -530,6 +626,8 @@ def judge_e2e(t, seed, kind, nch, alg, msd, nxseg, only=None, only_route=None):
             if nt:
                 t.nontrivial.add(("e2e", kind, nch, alg, msd, nxseg, dfi) + (("mpe_from_plot",) if via else ()))
                 t.extra["nontrivial_selections"] = t.extra.get("nontrivial_selections", 0) + nt
+    if not first_stage and (only_route is None or only_route == CROP_ROUTE):
+        judge_cropped(t, a, freq, r, u1, s, sels, df, rot, case0, where, only)
     for route in ROUTES:
         # selections whose dominant line is not the same for all requested band widths: there the DF argument decides the answer
         n = sum(1 for (ro, _), v in picked.items() if ro == route and len(v) > 1)
@@ -545,6 +643,59 @@ def judge_e2e(t, seed, kind, nch, alg, msd, nxseg, only=None, only_route=None):
     if only is None and kind == "resp" and nxseg == 256 and msd == "per":
         t.sample({"level": "e2e", "alg": alg, "record": kind, "nch": nch, "nxseg": nxseg, "method_SD": msd,
                   "n_selected": int(len(sels)), "Fn_head": np.round(np.asarray(a.result.Fn).ravel()[:4], 5)})
+
+
+def judge_cropped(t, a, freq, r, u1, s, sels, df, rot, case0, where, only=None):
+    """The stored result of the run (S_val, S_vec, freq) cropped to a band of interest and handed, with its own frequency
+    axis, to the documented function fdd.FDD_mpe; selected = the selections of the mpe route that lie on the cropped axis;
+    DF index = (crop index + rotation of the case) mod 3. The reference is the definition on the axis handed in."""
+    from pyoma2.functions import fdd
+
+    Nf = len(freq)
+    res = a.result
+    for ci, (label, lim) in enumerate(CROPS):
+        dfi = (ci + rot) % len(DFS)
+        if only is not None and dfi != only:
+            continue
+        lo_c, hi_c = lim(Nf)
+        sl = slice(lo_c, hi_c)
+        fc = freq[sl].copy()
+        rsels = sels[(sels >= fc[0]) & (sels <= fc[-1])]
+        DF = DFS[dfi] * df
+        case = dict(case0, dfi=dfi, route=CROP_ROUTE, crop=ci)
+        wh = f"{where}:cropped {label}"
+        if len(rsels) == 0 or len(fc) < 8:
+            raise RuntimeError(f"harness: crop {label} of a grid of {Nf} lines leaves nothing to select")
+        try:
+            t.evaluations += 1
+            Fn, Phi = fdd.FDD_mpe(np.asarray(res.S_val)[:, :, sl], np.asarray(res.S_vec)[:, :, sl], fc, list(rsels), DF=DF)
+            Fn = np.asarray(Fn, float).ravel()
+            Phi = np.asarray(Phi)
+            if Fn.shape != (len(rsels),) or Phi.shape != (u1.shape[1], len(rsels)):
+                raise ValueError(f"Fn{Fn.shape} Phi{Phi.shape}")
+        except Exception as e:
+            t.violation(f"raises:{type(e).__name__}:FDD_mpe@{wh}",
+                        f"{e!r} (DF={DFS[dfi]} lines, axis {fc[0]:.6g}..{fc[-1]:.6g} Hz, {len(fc)} lines)", case)
+            continue
+        rc, uc, sc = r[sl], u1[sl], s[sl]
+        nt = 0
+        for si, sel in enumerate(rsels):
+            cands = H.band_candidates(fc, sel, DF)
+            t.transitions += 1
+            idx = judge_pick(t, fc, rc, uc, sel, cands, Fn[si], Phi[:, si], case, wh)
+            if idx is None:
+                continue
+            lo = min(c[0] for c in cands)
+            hi = max(c[1] for c in cands)
+            seg = rc[lo:hi + 1]
+            if seg.max() > seg.min() * 1.001 and lo + int(np.argmax(seg)) != int(np.argmin(np.abs(fc - sel))):
+                nt += 1
+        t.outcomes[f"e2e result cropped ({label}) and handed to FDD_mpe"] += 1
+        if nt:
+            t.nontrivial.add(("e2e-cropped",) + tuple(case0[k] for k in ("kind", "nch", "alg", "method_SD", "nxseg")) + (ci,))
+            t.extra["nontrivial_selections"] = t.extra.get("nontrivial_selections", 0) + nt
+            if fc[0] > 0:
+                t.outcomes["e2e non-trivial selections on a cropped result that does not start at 0 Hz"] += nt
 
 
 # ---- lattice ------------------------------------------------------------------------------------
@@ -564,6 +715,13 @@ def lattice(ctx):
             "Nf and window offsets": {str(p[0]): p[1] for p in plan},
             "selected frequencies": "every grid line and every mid-point",
             "DF (line spacings)": list(DFS), "line spacing Hz": DFREQ,
+            "frequency axis handed to FDD_mpe": {
+                "zero-based": "every sequence x every DF",
+                "further axes (first line in spacings, lines cut below, lines cut above)": [list(a) for a in AXES],
+                "use": "every second sequence (k = profile index + window offset + channels + family index even) on one "
+                       "further axis with one DF: axis = (k/2) mod 10, DF index = (k/20) mod 3; selected = every line and "
+                       "mid-point of the axis handed in",
+            },
         }})
     base_id = 0
     chunk = 60
@@ -601,6 +759,13 @@ def lattice(ctx):
         "DF (line spacings)": list(DFS),
         "DF omitted": f"the default {DF_DEFAULT} Hz, on the grids with FS/nxseg <= {DF_DEFAULT} Hz (nxseg >= 512), both entry points",
         "entry points": list(ROUTES),
+        "cropped result (FDD, FDD_MS)": {
+            "what": "result.S_val / S_vec / freq sliced to lines [a, b) and handed to fdd.FDD_mpe with the mpe-route "
+                    "selections that lie on the cropped axis",
+            "crops [a, b) of Nf lines": {"0 Hz line dropped": "[1, Nf)", "lower end": "[Nf//8, Nf)",
+                                         "both ends": "[Nf//5, Nf - Nf//4)", "upper end": "[0, Nf//2)"},
+            "DF": "(crop index + nch + nxseg//256 + [method_SD == cor]) mod 3 of the DF list",
+        },
         "mpe_from_plot": {
             "classes": ["FDD", "FDD_MS (inherits FDD's method)", "EFDD", "FSDD", "EFDD_MS (EFDD's method: DF1, DF2 first)"],
             "dialog": "stand-in for pyoma2.algorithms.fdd.SelFromPlot returning an ascending list of grid lines",
@@ -628,13 +793,19 @@ def explore(ctx):
                 *[f"e2e mpe_from_plot call form: {f}" for f in FORMS],
                 "e2e first stage with DF2 < DF1 via mpe_from_plot",
                 *[f"e2e DF omitted (default {DF_DEFAULT} Hz) via {ro}" for ro in ROUTES],
-                *[f"e2e {ro}: the dominant line depends on the requested DF" for ro in ROUTES])
+                *[f"e2e {ro}: the dominant line depends on the requested DF" for ro in ROUTES],
+                *[f"function-level frequency axis: {axis_label(vi)}" for vi in range(len(AXES))],
+                *[f"function-level frequency axis kind: {k}, DF={d} lines" for k in AXIS_KINDS for d in DFS],
+                "function-level non-trivial selections on an axis that does not start at 0 Hz",
+                *[f"e2e result cropped ({c[0]}) and handed to FDD_mpe" for c in CROPS],
+                "e2e non-trivial selections on a cropped result that does not start at 0 Hz")
 
 
 def replay(case):
     t = Tally()
     if case.get("level") == "function":
-        run_sequence(t, case["seed"], case["n"], case["fam"], case["Nf"], case["off"], case["profile"], 0, only=case.get("dfi"), slow=True)
+        run_sequence(t, case["seed"], case["n"], case["fam"], case["Nf"], case["off"], case["profile"], 0, only=case.get("dfi"), slow=True,
+                     axis_only=case.get("axis"))
     elif case.get("level") == "e2e":
         judge_e2e(t, case["seed"], case["kind"], case["nch"], case["alg"], case["method_SD"], case["nxseg"], only=case.get("dfi"),
                   only_route=case.get("route"))
